@@ -22,14 +22,14 @@ MODULE = "sim/RangeExpr.tla"
 DEVS = ["ExclusiveEnd", "AdjustWithoutShrink"]
 NOB = -99
 # carriers of (A): (scale, offset, dtype); exact in binary floating point
-CARRIERS = [(1, 0, np.int64), (3, -4, np.int64), (-2, 5, np.int32), (0.25, 0.5, np.float64), (2.5, -1.0, np.float64),
+CARRIERS = [(1, 0, np.int64), (1, 0, np.int32), (3, -4, np.int64), (-2, 5, np.int32), (0.25, 0.5, np.float64), (2.5, -1.0, np.float64),
             (1, 0, np.float64)]
 # carriers of (B): (name, scale); the integer checks only read integers
 WORK = os.path.join(ROOT, ".work", "x02")
 
 
 def model(mode, maxlen, vals, dev=(), emit=False, inv=None):
-    inv = inv or ("LawsRepr" if mode == "repr" else "LawsParse")
+    inv = inv or ("LawsParse" if mode == "parse" else "LawsRepr")
     cfg = tlc.cfg_text(constants={"Mode": '"%s"' % mode, "MaxLen": str(maxlen), "Vals": tlc.tla(set(vals)),
                                   "Dev": tlc.tla(set(dev)) if dev else "{}"},
                        invariants=[inv], action_constraints=["Emit"] if emit else [])
@@ -92,11 +92,20 @@ def run_repr(case):
 
 
 def _run_repr(case):
-    from pyphysim.util.misc import get_mixed_range_representation, get_range_representation
+    from pyphysim.util.misc import get_mixed_range_representation, get_range_representation, replace_dict_values
     v = case["v"]
     for k, c, dt in CARRIERS:
         arr = (np.array(v) * k + c).astype(dt)
         keep = arr.copy()
+        # an array of another type that holds the same bytes is formatted first: the answer depends on the values only
+        other = {np.dtype(np.int64): np.int32, np.dtype(np.float64): np.int64}.get(arr.dtype,
+                                                                                 np.int64 if arr.size % 2 == 0 else None)
+        if other is not None:
+            for fm in (False, True):
+                try:
+                    replace_dict_values("{v}", {"v": arr.view(other).copy()}, fm)
+                except Exception:      # noqa - only the later answers are judged
+                    pass
         for fm in (False, True):
             what = f"array {arr.tolist()} ({np.dtype(dt).name}), filename_mode={fm}"
             try:
@@ -135,6 +144,16 @@ def _run_repr(case):
                 g2 = tokenize(whole, fm)
                 if g2 != wexp:
                     return f"{what}: get_range_representation returned {whole!r}, expected atoms {wexp}"
+            # the same text inside a name template (file names of results), next to a scalar and a string
+            d = {"v": arr, "n": 7, "s": "abc"}
+            try:
+                name = replace_dict_values("r_{v}_{n}_{s}_{v}", d, fm)
+            except Exception as e:      # noqa
+                return f"{what}: replace_dict_values raised {type(e).__name__}: {e}"
+            if name != f"r_[{text}]_7_abc_[{text}]":
+                return f"{what}: replace_dict_values gave {name!r}, expected 'r_[{text}]_7_abc_[{text}]'"
+            if d["v"] is not arr or d["n"] != 7 or d["s"] != "abc" or len(d) != 3:
+                return f"{what}: replace_dict_values changed the dictionary it was given"
             if not np.array_equal(arr, keep) or arr.dtype != keep.dtype:
                 return f"{what}: the argument was changed"
     return None
@@ -279,7 +298,7 @@ def _run_parse(idx, case):
 # --------------------------------------------------------------------------------------- driver
 def run(ctx):
     thorough = ctx.tier == "thorough"
-    rl, rv = (7, range(0, 4)) if thorough else (6, range(0, 4))
+    rl, rv = (7, range(0, 4)) if thorough else (5, range(0, 4))
     pl, pv = (3, range(0, 3)) if thorough else (2, range(0, 3))
     # stage M: laws, deviations, named deviation
     for dev in DEVS:
@@ -289,6 +308,10 @@ def run(ctx):
     # stage R (the emission runs check the laws as well)
     r = ctx.tlc(MODULE, model("repr", rl, rv, emit=True), label=f"repr len<={rl}", coverage=True, timeout=3000)
     cases = [c for c in r.emitted if c["kind"] == "repr"]
+    # arrays given by their differences: two and three adjacent long runs (up to 8 / 9 elements)
+    dl, dv = (8, (-1, 0, 1, 2)) if thorough else (7, (0, 1, 2))
+    r = ctx.tlc(MODULE, model("reprd", dl, dv, emit=True), label=f"repr by differences, <={dl} over {dv}", coverage=True, timeout=3000)
+    cases += [c for c in r.emitted if c["kind"] == "repr"]
     if thorough:
         # a second alphabet with larger gaps (runs of runs)
         r2 = ctx.tlc(MODULE, model("repr", 9, (0, 1, 3), emit=True), label="repr len<=9 over {0,1,3}", coverage=True, timeout=3000)
